@@ -6,6 +6,7 @@ import GaleneVerif.Engine.Down
 import GaleneVerif.Engine.UpE2E
 import GaleneVerif.Engine.Token
 import GaleneVerif.Engine.Auth
+import GaleneVerif.Engine.FuzzMisc
 /-
 Line-protocol driver.  usage: driver <engine> [oracle-only] < trace
 `oracle-only` (failing-input search): model/impl mismatches do not end the case;
@@ -77,7 +78,8 @@ def engines : List (String × EngineDef) :=
     ("down", Galene.Engine.Down.engine),
     ("upe2e", Galene.Engine.UpE2E.engine),
     ("token", Galene.Engine.Token.engine),
-    ("auth", Galene.Engine.Auth.engine) ]
+    ("auth", Galene.Engine.Auth.engine),
+    ("fuzzmisc", Galene.Engine.FuzzMisc.engine) ]
 
 def main (args : List String) : IO UInt32 := do
   let (name?, oracleOnly) := match args with
